@@ -36,8 +36,8 @@ plan("C02", "exploration",
      {"fsm-apply": 20}, "at least 20 entries handed to FSMs",
      {"quick": {"fsm-restore": 20, "fsm-apply": 5000}, "thorough": {"fsm-restore": 500}})
 plan("C03", "exploration",
-     [sim("fig8", 25), sim("fig8x", 12), sim("random", 13), sim("elections", 10)],
-     [sim("fig8", 800), sim("fig8x", 300), sim("random", 400), sim("elections", 300), sim("crashpoints", 200)],
+     [sim("fig8", 20), sim("fig8x", 12), sim("storefail", 10), sim("random", 10), sim("elections", 8)],
+     [sim("fig8", 800), sim("fig8x", 300), sim("storefail", 300), sim("random", 400), sim("elections", 300), sim("crashpoints", 200)],
      {"leader-completeness-checked": 1}, "a leader was elected after entries were known to be committed",
      {"quick": {"leader-completeness-checked": 100}, "thorough": {"leader-completeness-checked": 3000}})
 plan("C08", "exploration",
@@ -88,16 +88,16 @@ plan("C20", "exploration",
 
 # ---- mixed engines ----
 plan("C04", "exploration",
-     [tbl("handler", "TestC04", 8, "HANDLER"), sim("fig8", 25), sim("random", 15)],
-     [tbl("handler", "TestC04", 16, "HANDLER", wall=3000), sim("fig8", 500), sim("random", 500), sim("elections", 200)],
+     [tbl("handler", "TestC04", 8, "HANDLER"), sim("fig8", 20), sim("random", 12), sim("storefail", 8)],
+     [tbl("handler", "TestC04", 16, "HANDLER", wall=3000), sim("fig8", 500), sim("random", 500), sim("elections", 200), sim("storefail", 200)],
      None, None,
      {"quick": {"ae-success-with-entries": 1000, "truncation": 20}, "thorough": {"truncation": 1000}},
      rule="HANDLER: every (follower log, snapshot boundary, current term) x (request term, previous-entry position, batch, conflict position, leader commit) within the bounds "
           "(log <= 5 entries over 3 terms) is enumerated; thorough runs all of them, quick a seeded sample; a case is non-trivial when entries were sent and accepted. "
           "SIM: " + (SIM_RULE % "at least 10 successful AppendEntries with entries were checked against the follower's reconstructed disk"))
 plan("C05", "exploration",
-     [tbl("table", "TestC05", 8, "TABLE"), sim("churn", 20), sim("random", 12), sim("fig8x", 8)],
-     [tbl("table", "TestC05", 16, "TABLE", wall=3000), sim("churn", 500), sim("random", 500), sim("fig8", 300), sim("fig8x", 200)],
+     [tbl("table", "TestC05", 8, "TABLE"), sim("churn", 16), sim("random", 10), sim("fig8x", 8), sim("storefail", 10)],
+     [tbl("table", "TestC05", 16, "TABLE", wall=3000), sim("churn", 500), sim("random", 500), sim("fig8", 300), sim("fig8x", 200), sim("storefail", 300)],
      None, None,
      {"quick": {"leader-commit": 1000, "majority-checked-at-leader-commit": 500}, "thorough": {"leader-commit": 30000}},
      rule="TABLE: every configuration over 3 servers (voter / non-voter / staging / absent, >= 1 voter) x startIndex 1..3 x every sequence of <= 3 (quick) / <= 4 (thorough) "
